@@ -8,7 +8,7 @@
 From Coq Require Import List Arith Bool NArith ZArith Permutation.
 Import ListNotations.
 From GixV.Base Require Import Bytes Outcome.
-From GixV.C51 Require Import Model ProofsOrder ProofsSlice ProofsPipe.
+From GixV.C51 Require Import Model ProofsOrder ProofsSlice ProofsPipe ProofsPipeAll.
 
 (* ============================ the order-restoring iterator ================================ *)
 
@@ -141,13 +141,15 @@ Theorem pipe_shape_preserved : forall rfails sched s,
   /\ (p_rx s = false -> p_rx (pl_exec rfails s sched) = false).
 Proof. exact L_pipe_shape_exec. Qed.
 
-(* NOT proved (tested only, see NOTES.md): on success every result reaches the reducer. *)
-Definition pipe_all_delivered_full_statement : Prop :=
-  forall rfails with_fin threads input sched,
-    0 < threads ->
-    let s := pl_exec rfails (pl_init with_fin threads input) sched in
-    p_m s = PDone POk ->
-    Permutation (p_started s) input /\ Permutation (res_items (p_fed s)) input.
+(* on success (the reducer got everything and finalize ran) every input item was consumed exactly
+   once, the item results fed to the reducer are exactly the inputs, and every thread has finished;
+   any number (>= 1) of threads, any schedule, with or without finalize *)
+Theorem pipe_all_delivered_on_success : forall rfails with_fin threads input sched,
+  0 < threads ->
+  let s := pl_exec rfails (pl_init with_fin threads input) sched in
+  p_m s = PDone POk ->
+  Permutation (p_started s) input /\ Permutation (res_items (p_fed s)) input /\ pl_terminated s = true.
+Proof. exact L_pipe_all_delivered. Qed.
 
 Example pipe_example :
   let s := pl_exec (fun _ => false) (pl_init false 1 [7; 8])
